@@ -165,6 +165,9 @@ class Builtins:
     def compare(self, op, a: Value, b: Value, node, fr) -> Value:
         I = self.I
         label = self.I.up(node) if node is not None else ""
+        if isinstance(op, (ast.Eq, ast.NotEq)) and isinstance(a, Obj) and a.cls.find_method("__eq__") is not None:
+            r0 = I.truth(I.call_func(a.cls.find_method("__eq__"), [b], {}, a, node, fr), label)
+            return I.lift(r0 if isinstance(op, ast.Eq) else not r0)
         if isinstance(op, (ast.Eq, ast.NotEq)):
             r = I.try_equals(a, b)
             if r is None:
